@@ -201,6 +201,12 @@ def rule_check_preprocessor(repo, rep):
         ok = False
     elif pv.origin == ('hyper', 'preprocessor'):
       kinds.add('self')
+    elif pv.c is not NOCONST and pv.c == frozenset([None]) and any(
+            isinstance(x, V) and x.origin == ('hyper', 'preprocessor') and
+            x.c is not NOCONST and x.c == frozenset([None])
+            for x in st.vars.values()):
+      # the literal None stored on the path where the preprocessor is None
+      kinds.add('self')
     else:
       rep.refuted(R, 'other-value', site(f, node),
                   'self.preprocessor_ is neither ArrayIndexer(preprocessor) '
@@ -246,28 +252,68 @@ def rule_check_preprocessor(repo, rep):
                   'unrecognised return %s' % got)
 
 
+class _ForkTags(TagDomain):
+  fork = True
+  max_states = 64
+
+
 def rule_only_for_indicators(repo, rep):
   R = 'R-GUARD:preprocess-only-indicators'
-  rep.rule(R, 'preprocess_tuples / preprocess_points are reachable only '
-           'under ndim == formed_ndim - 1 and preprocessor is not None')
-  for key, helper, nd in (('_util.check_input_tuples', 'preprocess_tuples', 2),
-                          ('_util.check_input_classic', 'preprocess_points',
-                           1)):
+  rep.rule(R, 'decision table of check_input_classic / check_input_tuples, '
+           'by abstract interpretation over (ndim, preprocessor given?): the '
+           'preprocessor helper runs exactly when the input has one dimension '
+           'less than formed data and a preprocessor is given; without a '
+           'preprocessor that input is rejected; formed data never goes '
+           'through the helper; any other dimension is rejected')
+  for key, helper, formed in (
+          ('_util.check_input_tuples', '_util.preprocess_tuples', 3),
+          ('_util.check_input_classic', '_util.preprocess_points', 2)):
     f = repo.get_func(key)
-    calls = [c for c in astutil.calls_in(f.node)
-             if isinstance(c.func, ast.Name) and c.func.id == helper]
-    if not calls:
-      rep.refuted(R, key, site(f), '%s is never called: indicators are no '
-                  'longer expanded' % helper)
-      continue
-    for c in calls:
-      conds = set(astutil.path_condition(f.node, c))
-      need = {'input_data.ndim == %d' % nd, 'preprocessor is not None'}
-      if need <= conds:
-        rep.derived(R, key, site(f, c))
-      else:
-        rep.refuted(R, key, site(f, c), '%s called under %s; required %s'
-                    % (helper, sorted(conds), sorted(need)))
+    rep.analysed(f)
+    n_cases = 0
+    for nd in (formed - 2, formed - 1, formed, formed + 1):
+      for given in (False, True):
+        if nd < 0:
+          continue
+        dom = _ForkTags()
+        eng = Engine(repo, dom)
+        pre = V(EMPTY, ty='instance') if given else \
+            V(EMPTY, c=frozenset([None]), ty='none')
+        args = {'input_data': V(EMPTY, ty='ndarray'), 'preprocessor': pre}
+        facts = {('@attr', 'input_data', 'ndim'): V(EMPTY,
+                                                     c=frozenset([nd]))}
+        # tuple_size / estimator etc. stay unknown
+        flow = eng.run(f, args=args, facts=facts)
+        called_may = any(('call', helper) in dom.may(st_)
+                         for (v_, st_, n_) in flow.returns) or \
+            any(('call', helper) in dom.may(st_)
+                for (nm_, st_, n_) in flow.raises)
+        called_must = bool(flow.returns) and all(
+            ('call', helper) in dom.must(st_)
+            for (v_, st_, n_) in flow.returns)
+        normal = bool(flow.returns)
+        case = '%s:ndim=%d:preprocessor=%s' % (key, nd, 'given' if given
+                                                else 'None')
+        n_cases += 1
+        if nd == formed - 1 and given:
+          ok = called_must
+          why = 'indicators are not expanded by %s on every accepting path' \
+              % helper.split('.')[-1]
+        elif nd == formed - 1 and not given:
+          ok = not normal and not called_may
+          why = 'indicators without a preprocessor are accepted' if normal \
+              else 'the helper runs without a preprocessor'
+        elif nd == formed:
+          ok = normal and not called_may
+          why = 'formed data is rejected' if not normal else \
+              'formed data is sent through the preprocessor helper'
+        else:
+          ok = not normal and not called_may
+          why = 'input of dimension %d is accepted' % nd if normal else \
+              'the helper runs on input of dimension %d' % nd
+        rep.add(R, case, 'derived' if ok else 'refuted', site(f),
+                '' if ok else why)
+    rep.floor('validator decision-table cases ' + key, n_cases, 6)
 
 
 def _is_name(n, name):
